@@ -9,6 +9,8 @@ let runners : (string * (string -> string list -> string list list -> (string ->
   ("C02", Drv_c02.run);
   ("C16", Drv_c16.run);
   ("C20", Drv_c20.run);
+  ("C07", Drv_c07.run);
+  ("C11", Drv_c11.run);
 ]
 
 (* optional third argument: the harness output for the same cases (for models that need
